@@ -311,6 +311,7 @@ func checkC13(c *Ctx) {
 		}
 	}
 	// pipeline order
+	sba, saa, dba := p.FuncDecl(pkgCallbacks, "SaveBeforeAssociations"), p.FuncDecl(pkgCallbacks, "SaveAfterAssociations"), p.FuncDecl(pkgCallbacks, "DeleteBeforeAssociations")
 	phaseOf := func(r *Registration) int {
 		// 0 begin, 1 other-before, 2 before-hooks, 3 before-assoc, 4 statement, 5 after-assoc, 6 after-hooks, 7 commit
 		hasHook := ""
@@ -327,6 +328,14 @@ func checkC13(c *Ctx) {
 		}
 		if mi, ok := mainIdx[r.Pipeline]; ok && r.Index == mi {
 			return 4
+		}
+		// association executors: saved belongs-to records and deleted associations come after the before-hooks (a
+		// hook may still veto or change the record), saved has-one/has-many/many2many before the after-hooks
+		switch {
+		case r.Factory != nil && r.Factory == sba, r.Fn != nil && r.Fn == dba:
+			return 3
+		case r.Factory != nil && r.Factory == saa:
+			return 5
 		}
 		return -1
 	}
@@ -363,7 +372,7 @@ func checkC13(c *Ctx) {
 			}
 			ro.Check(before && after, "callbacks.RegisterDefaultCallbacks", pl+": association saves around the statement", regs[0].Call.Pos(), "belongs-to before, has-one/has-many/many2many after the statement", "association saves are not registered around the "+pl+" statement")
 		}
-		ro.Check(okOrder, "callbacks.RegisterDefaultCallbacks", pl+": before-hooks < statement < after-hooks", regs[0].Call.Pos(), strings.Join(seq, " < "), "pipeline "+pl+" registers hooks on the wrong side of the statement: "+strings.Join(seq, " < "))
+		ro.Check(okOrder, "callbacks.RegisterDefaultCallbacks", pl+": before-hooks < statement < after-hooks", regs[0].Call.Pos(), strings.Join(seq, " < "), "pipeline "+pl+" does not register before-hooks < before-associations < statement < after-associations < after-hooks: "+strings.Join(seq, " < ")+" (an association phase that runs before the owner's before-hooks has already saved records when such a hook fails, and misses what the hook sets)")
 	}
 
 	// update pipeline: the executor that points Statement.ReflectValue at the model precedes every hook executor
